@@ -5,9 +5,9 @@ OUT=$(/verif/lib/confirm_seeded.sh $WT $X); echo "$OUT"
 echo "$OUT" | grep -q " CONFIRMED" || { echo "NOT CONFIRMED: $KEY"; exit 1; }
 mkdir -p /verif/seeded/$KEY; (cd $WT/MUTATION/$X && for f in *; do cp -r "$f" /verif/seeded/$KEY/; done)
 PID=${KEY%%-*}
-python3 - "$KEY" "$PID" "$NEEDS" <<'PY'
+python3 - "$KEY" "$PID" "$NEEDS" "${ROUND_NOTE:-round 2: asked for a change that a careful reviewer and a boundary-value sweep would miss}" <<'PY'
 import json,sys
-key,pid,needs=sys.argv[1:4]
-json.dump({"property":pid,"breaks":"see README.md","needs_to_manifest":needs,"origin":"independent sub-agent given only the property text and a scratch worktree (round 2: asked for a change that a careful reviewer and a boundary-value sweep would miss)","confirmed":{"how":"lib/confirm_seeded.sh in the scratch worktree: git apply patch.diff; cargo test --offline --workspace (33 tests) passes; demonstration fails; after git checkout the demonstration passes","result":"CONFIRMED"}},open(f"/verif/seeded/{key}/meta.json","w"),indent=1)
+key,pid,needs,note=sys.argv[1:5]
+json.dump({"property":pid,"breaks":"see README.md","needs_to_manifest":needs,"origin":"independent sub-agent given only the property text and a scratch worktree ("+note+")","confirmed":{"how":"lib/confirm_seeded.sh in the scratch worktree: git apply patch.diff; cargo test --offline --workspace (33 tests) passes; demonstration fails; after git checkout the demonstration passes","result":"CONFIRMED"}},open(f"/verif/seeded/{key}/meta.json","w"),indent=1)
 PY
 /verif/lib/run_seeded.py /verif/seeded/$KEY 2>&1 | cut -c1-250 | head -4
